@@ -291,7 +291,7 @@ pub fn run_parts(parts: &[&dyn Harness], spec: Spec) -> i32 {
     // properties must hold all the same. Bounds 0 and 1, own time cap.
     let mut trace_doc = json!({"run": false});
     if std::env::var("MC_NO_TRACE_PASS").is_err() && violations.is_empty() && machinery.is_empty() {
-        install_trace_subscriber();
+        install_trace_subscriber(spec.prop);
         let cap = Instant::now() + if spec.tier == Tier::Quick { Duration::from_secs(12) } else { Duration::from_secs(240) };
         let (mut execs, mut done_bound) = (0u64, None);
         'outer: for b in [0u32, 1] {
@@ -313,7 +313,7 @@ pub fn run_parts(parts: &[&dyn Harness], spec: Spec) -> i32 {
                             }
                         }
                         println!("VIOLATION property={} replay={}", spec.prop, p.display());
-                        eprintln!("  [TRACE-level subscriber installed] {}: {}", f.v.signature, f.v.message);
+                        eprintln!("  {}: [second pass, process-wide tracing subscriber installed] {}", f.v.signature, f.v.message);
                         violations.push((f.v.signature.clone(), p));
                     }
                 }
@@ -327,7 +327,7 @@ pub fn run_parts(parts: &[&dyn Harness], spec: Spec) -> i32 {
             }
         }
         trace_doc = json!({"run": true, "executions": execs, "bound_completed": done_bound,
-            "what": "the same harnesses explored again with a process-wide TRACE-level tracing_subscriber::fmt subscriber (all callsites enabled, output discarded)"});
+            "what": if otel_in_second_pass(spec.prop) { "the same harnesses explored again with a process-wide subscriber: a TRACE-level formatting layer (all callsites enabled, output discarded) plus a tracing-opentelemetry layer (spans carry trace contexts)" } else { "the same harnesses explored again with a process-wide TRACE-level tracing_subscriber::fmt subscriber (all callsites enabled, output discarded)" }});
     }
     {
         let mut by: BTreeMap<String, Vec<String>> = BTreeMap::new();
@@ -415,11 +415,32 @@ pub fn run_parts(parts: &[&dyn Harness], spec: Spec) -> i32 {
 
 /// Installs, once per process, a subscriber that enables every tracing callsite and discards
 /// the output.
-pub fn install_trace_subscriber() {
+/// Properties whose second pass also carries a tracing-opentelemetry layer: the server-side ones,
+/// whose oracles do not look at trace ids (under that layer tarpc takes trace contexts from spans,
+/// and a server span has a trace id of its own to compare a peer's messages with - seeded change
+/// C08j ignored cancellations whose trace id differed from the span's).
+pub fn otel_in_second_pass(prop: &str) -> bool {
+    matches!(prop, "C04" | "C06" | "C08" | "C11" | "C12")
+}
+
+pub fn install_trace_subscriber(prop: &str) {
     static ONCE: std::sync::Once = std::sync::Once::new();
+    let otel = otel_in_second_pass(prop);
     ONCE.call_once(|| {
-        let sub = tracing_subscriber::fmt().with_max_level(tracing::Level::TRACE).with_writer(std::io::sink).finish();
-        let _ = tracing::subscriber::set_global_default(sub);
+        use tracing_subscriber::layer::SubscriberExt;
+        if otel {
+            use opentelemetry::trace::TracerProvider as _;
+            let provider = opentelemetry_sdk::trace::TracerProvider::builder().build();
+            let tracer = provider.tracer("mc");
+            std::mem::forget(provider);
+            let sub = tracing_subscriber::registry()
+                .with(tracing_subscriber::fmt::layer().with_writer(std::io::sink))
+                .with(tracing_opentelemetry::layer().with_tracer(tracer));
+            let _ = tracing::subscriber::set_global_default(sub);
+        } else {
+            let sub = tracing_subscriber::fmt().with_max_level(tracing::Level::TRACE).with_writer(std::io::sink).finish();
+            let _ = tracing::subscriber::set_global_default(sub);
+        }
         tracing::callsite::rebuild_interest_cache();
     });
 }
